@@ -32,6 +32,9 @@ func (a *Addressing) ExtractMailbox(address string) (string, error) {
 	if err != nil {
 		return "", err
 	}
+	if err = validateMailboxLocal(local); err != nil {
+		return "", err
+	}
 
 	if a.Config.MailboxNaming == config.LocalNaming {
 		return local, nil
@@ -49,7 +52,7 @@ func (a *Addressing) ExtractMailbox(address string) (string, error) {
 		return "", fmt.Errorf("domain part %q in %q failed validation", domain, address)
 	}
 
-	return local + "@" + domain, nil
+	return local + "@" + canonicalDomain(domain), nil
 }
 
 // NewRecipient parses an address into a Recipient. This is used for parsing RCPT TO arguments,
@@ -238,7 +241,29 @@ func extractDomainMailbox(address string) (string, error) {
 		return "", fmt.Errorf("domain part %q in %q failed validation", domain, address)
 	}
 
-	return domain, nil
+	return canonicalDomain(domain), nil
+}
+
+// canonicalDomain lower-cases a domain for use in a mailbox name, so that the name does not
+// depend on letter case. The "IPv6:" tag of an address literal keeps its spelling.
+func canonicalDomain(domain string) string {
+	if strings.HasPrefix(domain, "[IPv6:") {
+		return "[IPv6:" + strings.ToLower(domain[6:])
+	}
+	return strings.ToLower(domain)
+}
+
+// validateMailboxLocal rejects mailbox names that cannot be requested later: an empty name
+// (ex: "+label@domain") and names with a leading, trailing or doubled period, which can only be
+// produced by quoting or by stripping a label.
+func validateMailboxLocal(name string) error {
+	if name == "" {
+		return errors.New("mailbox name cannot be empty")
+	}
+	if name[0] == '.' || name[len(name)-1] == '.' || strings.Contains(name, "..") {
+		return fmt.Errorf("mailbox name %q has a misplaced period", name)
+	}
+	return nil
 }
 
 // parseEmailAddress unescapes an email address, and splits the local part from the domain part.  An
